@@ -9,6 +9,10 @@ def classify(case):
     import base64
     i = case.get("input") or {}
     o = case.get("observed") or {}
+    if isinstance(o, dict) and o.get("missing") and set(o["missing"]) <= set(o.get("shadowed") or []):
+        # changes driver: the only desired entries absent afterwards are ones whose (dir, type) is occupied by a different,
+        # reused helper entry of the current profile (any other failure of the step is reported through MountNS.relaxed_fail)
+        return "desired-shadowed-by-helper"
     if isinstance(o, dict) and o.get("current_in_mount_order") is False:
         # order driver: the recorded current profile is no longer in mount order (kept entries were recorded reversed)
         return "unmount-order-after-keep"
@@ -26,13 +30,13 @@ SPEC = dict(
     prop="C28",
     coq_targets=["props/C28.vo"],
     drivers=[
-        dict(name="codec", run="TestVerifC28Codec", n=dict(quick=400, thorough=30000),
+        dict(name="codec", run="TestVerifC28Codec", n=dict(quick=300, thorough=30000),
              ev=dict(requires=["V.lib.Bytes", "V.models.MountEntry"], case_type="MountEntry.case",
                      mismatch="MountEntry.mismatch", monitor="MountEntry.monitor_fail"), **_BUILD),
-        dict(name="changes", run="TestVerifC28Changes", n=dict(quick=150, thorough=6000),
+        dict(name="changes", run="TestVerifC28Changes", n=dict(quick=130, thorough=6000),
              ev=dict(requires=["V.lib.Bytes", "V.models.MountEntry", "V.models.MountNS"], case_type="MountNS.case",
                      mismatch="MountNS.mismatch", monitor="MountNS.monitor_fail"), **_BUILD),
-        dict(name="order", run="TestVerifC28Order", n=dict(quick=100, thorough=4000),
+        dict(name="order", run="TestVerifC28Order", n=dict(quick=80, thorough=4000),
              ev=dict(requires=["V.lib.Bytes", "V.models.MountEntry", "V.models.MountNS"], case_type="MountNS.ocase",
                      mismatch="(fun _ => false)", monitor="MountNS.order_fail"), **_BUILD),
     ],
@@ -51,7 +55,7 @@ SPEC = dict(
           "directories, files and symlinks, each step run through the REAL executeMountProfileUpdate with in-memory "
           "profiles and a simulated Change.Perform (missing targets get a writable mimic built by the real "
           "createWritableMimic, so current profiles contain real synthetic entries with x-snapd.needed-by); one case per "
-          "step. A third of the cases call neededChanges directly on an arbitrary current profile (duplicates, synthetic "
+          "step. Mutations also put a tmpfs on the directory above an existing entry (where a mimic may sit). A third of the cases call neededChanges directly on an arbitrary current profile (duplicates, synthetic "
           "helpers needed by present/absent entries, rootfs entries, up to 18 entries). Desired mount points are pairwise "
           "different after cleaning. order: the same histories (steps >= 1) reduced to (mount point, true mount age) and "
           "the positions unmounted. Non-trivial = guarded entry/profile; step with a Keep or Unmount and a Mount; step "
@@ -65,9 +69,10 @@ SPEC = dict(
         "decimal printing/parsing through coq/lib/Dec.v",
     ],
     assumptions=[
-        "PARTIAL: result profile proved in membership form (every desired entry mounted or kept; only desired entries mounted; only desired entries and still-needed helpers kept); that the change list applies step by step and that nothing appears twice is monitored on every observed change list, not proved",
+        "result profile (C28_result_profile): apply_changes of the computed list succeeds and the table is, as a multiset, desired + kept still-needed helpers - proved for every profile pair under three hypotheses: distinct cleaned desired mount points, distinct (dir, type) in the current profile, no desired entry on the (dir, type) of a different helper entry; the third is NOT assumed by the monitor: its violation is reachable (KNOWN FINDING desired-shadowed-by-helper, witness C28_result_profile_shadowed_refuted, scripted history in the driver)",
         "mount order (C28_mount_order) is proved under per-pair hypotheses: different sort keys, existing targets closed under containment, mimic roots equal or string-ordered; that the last one follows from an ancestor-closed oracle (filepath.Dir algebra) is not proved; the monitor checks the conclusion without it",
-        "hypotheses of the planning theorems (checked on every tied case, cases violating them are not monitored): pairwise different cleaned desired mount points; pairwise different (dir, type) in the current profile; no desired entry on the (dir, type) of a different helper entry of the current profile; existing mount targets closed under containment among desired entries of the same origin",
+        "hypotheses of the planning theorems (checked on every tied case, cases violating them are not monitored): pairwise different cleaned desired mount points; pairwise different (dir, type) in the current profile; existing mount targets closed under containment among desired entries of the same origin",
+        "KNOWN FINDING desired-shadowed-by-helper: a desired entry on the (dir, type) of a reused, different helper entry is neither mounted nor recorded; in such steps everything else the property says is still checked (MountNS.relaxed_fail, folded into the correspondence verdict so the key cannot hide another failure)",
         "KNOWN FINDING unmount-order-after-keep: over histories the unmount order sentence fails on the real code (kept entries are recorded reversed); within one step C28_unmount_order holds for every profile",
         "KNOWN FINDING profile-name-leading-space-rune: profile round trip needs the first byte of the line not to be a white-space rune that escape() leaves alone",
         "codec guard: fields non-empty and not starting with #, at least one option, no commas inside options, joined options non-empty and not starting with #, numbers within int64; lines longer than bufio's 64 KiB token limit are outside the model",
